@@ -293,6 +293,17 @@ impl<'tcx> JSFormatter<'tcx> {
         param_name.to_lower_camel_case().into()
     }
 
+    /// The name of a method parameter. Unlike a struct field, a parameter named after a JS keyword
+    /// (`class`, `new`, `default`, ...) is a syntax error, so those get the same `_` suffix as methods.
+    pub fn fmt_method_param_name<'a>(&self, param_name: &'a str) -> Cow<'a, str> {
+        let name = self.fmt_param_name(param_name);
+        if RESERVED.contains(&&*name) {
+            format!("{name}_").into()
+        } else {
+            name
+        }
+    }
+
     pub fn fmt_lifetime_edge_array(
         &self,
         lifetime: hir::Lifetime,
